@@ -551,35 +551,41 @@ func c18CallSample(s *Sampler, logits []float32) (res c18Result) {
 
 // ---------------------------------------------------------------- one case
 
-func c18RunCase(out *zzverif.Out, c *c18Case, fix bool) {
-	line := c.line()
-	n := len(c.logits)
-	out.Count("cases")
-	hasNaN := c18HasNaN(c.logits)
-	s := NewSampler(c.temp, c.k, c.p, c.mp, c.seed, nil)
-
-	// NewSampler clamping
-	out.Case(fmt.Sprintf("newsampler %s %d %s %s", c18Bits(c.temp), c.k, c18Bits(c.p), c18Bits(c.mp)),
-		fmt.Sprintf("%s %d %s %s", c18Bits(s.temperature), s.topK, c18Bits(s.topP), c18Bits(s.minP)))
-
-	// the seeded stream (a second, identically seeded sampler is consumed here)
-	var r float32
-	if c.seed != -1 {
-		s2 := NewSampler(c.temp, c.k, c.p, c.mp, c.seed, nil)
-		nums := make([]string, 3)
-		for i := range nums {
-			f := s2.rng.Float32()
-			if i == 0 {
-				r = f
-			}
-			nums[i] = strconv.Itoa(int(f * (1 << 24)))
-		}
-		out.Case(fmt.Sprintf("rng %d 3", c.seed), strings.Join(nums, ","))
+// c18Spec is the parameter clamping the API promises (what NewSampler documents), written down
+// independently of NewSampler: the stage replication, the oracle commands and the L2 clauses all use
+// these values, the real call uses whatever the real NewSampler stored.
+func c18Spec(c *c18Case) Sampler {
+	t, p, mp := c.temp, c.p, c.mp
+	if t < 0 {
+		t = 0
 	}
+	if p < 0 {
+		p = 0
+	}
+	if p >= 1 {
+		p = 1
+	}
+	if mp < 0 {
+		mp = 0
+	}
+	if mp >= 1 {
+		mp = 1
+	}
+	return Sampler{topK: c.k, topP: p, minP: mp, temperature: t}
+}
+
+// c18RunCall runs call number `idx` of a history on the shared real sampler `realS`; `r` is the number
+// the seeded generator delivers if this call reaches it.  Returns whether the call consumes a random
+// number (by the model's rule) and whether the oracle needs Go's sort order (pdqsort ties).
+func c18RunCall(out *zzverif.Out, c *c18Case, fix bool, realS *Sampler, r float32, line string, idx int, crafted bool) (consumed, needPre bool) {
+	n := len(c.logits)
+	out.Count("calls")
+	hasNaN := c18HasNaN(c.logits)
+	s := c18Spec(c)
 	if n == 0 {
-		res := c18CallSample(&s, c.logits)
+		res := c18CallSample(realS, c.logits)
 		out.Case(fmt.Sprintf("sample 0 0 %s %d %s %s %s 0 0", c18Bits(s.temperature), s.topK, c18Bits(s.topP), c18Bits(s.minP), c18Bits(r)), res.head)
-		return
+		return false, false
 	}
 
 	small := n <= 48
@@ -732,7 +738,7 @@ func c18RunCase(out *zzverif.Out, c *c18Case, fix bool) {
 	}
 
 	// ---- the real call
-	res := c18CallSample(&s, c.logits)
+	res := c18CallSample(realS, c.logits)
 	out.Count("res_" + strings.Fields(res.head)[0])
 	fixFlag := 0
 	if fix {
@@ -742,7 +748,7 @@ func c18RunCase(out *zzverif.Out, c *c18Case, fix bool) {
 	if pre {
 		preFlag = 1
 	}
-	if c.seed != -1 {
+	{
 		op := fmt.Sprintf("sample %d %d %s %d %s %s %s %s %s", fixFlag, preFlag, c18Bits(s.temperature), s.topK,
 			c18Bits(s.topP), c18Bits(s.minP), c18Bits(r), tokList.String(), expTable)
 		var impl string
@@ -758,11 +764,12 @@ func c18RunCase(out *zzverif.Out, c *c18Case, fix bool) {
 	}
 
 	// ---- L2: the property on the real result
-	c18L2(out, c, &s, res, line, stage)
+	c18L2(out, c, &s, res, fmt.Sprintf("%s # call=%d", line, idx), stage)
 
 	// ---- the same call with chosen random numbers (a fixed rand.Source): r = 0, the largest r,
 	// and r whose product with the total hits a cumulative sum exactly (the `<` of the walk)
-	if s.temperature != 0 && haveBase && len(cumF) > 0 && c.seed != -1 {
+	consumed = s.temperature != 0 && status != ""
+	if crafted && s.temperature != 0 && haveBase && len(cumF) > 0 {
 		total := cumF[len(cumF)-1]
 		ks := []uint32{0, 1<<24 - 1}
 		for tries := 0; tries < 3; tries++ {
@@ -789,9 +796,10 @@ func c18RunCase(out *zzverif.Out, c *c18Case, fix bool) {
 			op := fmt.Sprintf("sample %d %d %s %d %s %s %s %s %s", fixFlag, preFlag, c18Bits(s.temperature), s.topK,
 				c18Bits(s.topP), c18Bits(s.minP), c18Bits(rr), tokList.String(), expTable)
 			out.Case(op, fmt.Sprintf("%s kt=%d kp=%s km=%s c=%s", res3.head, kt, kp, km, c18Status(baseFlags, cumF, rr)))
-			c18L2(out, c, &s3, res3, line+fmt.Sprintf(" # crafted r=%d/2^24", k), stage)
+			c18L2(out, c, &s, res3, line+fmt.Sprintf(" # call=%d on a fresh sampler, crafted r=%d/2^24", idx, k), stage)
 		}
 	}
+	return consumed, pre
 }
 
 // c18FixedSrc is a rand.Source that always returns the same word.
@@ -958,34 +966,258 @@ type c18Stage struct {
 	ok  bool // no NaN among the probabilities
 }
 
-// reproducibility: the same seed gives the same sequence of tokens over a sequence of calls
-func c18Repro(out *zzverif.Out, r *zzverif.Rng, c *c18Case) {
-	if c.seed == -1 || len(c.logits) == 0 {
+// ---------------------------------------------------------------- histories
+
+// c18Hist is the unit of a run: ONE sampler (parameters + seed) and a sequence of calls on it.
+//   H <tempbits> <k> <pbits> <minpbits> <seed> <ncalls> {<n> <logitbits>*}*
+// (the older single-call form `S <temp> <k> <p> <minp> <seed> <n> <bits>*` is still read)
+type c18Hist struct {
+	temp, p, mp float32
+	k, seed     int
+	calls       [][]float32
+	weird       bool
+}
+
+func (h *c18Hist) line() string {
+	var b strings.Builder
+	fmt.Fprintf(&b, "H %s %d %s %s %d %d", c18Bits(h.temp), h.k, c18Bits(h.p), c18Bits(h.mp), h.seed, len(h.calls))
+	for _, v := range h.calls {
+		b.WriteByte(' ')
+		b.WriteString(c18FList(v))
+	}
+	return b.String()
+}
+
+func c18ParseHist(line string) *c18Hist {
+	f := strings.Fields(line)
+	if len(f) >= 7 && f[0] == "S" {
+		c := c18ParseCase(line)
+		if c == nil {
+			return nil
+		}
+		return &c18Hist{temp: c.temp, p: c.p, mp: c.mp, k: c.k, seed: c.seed, calls: [][]float32{c.logits}, weird: c.weird}
+	}
+	if len(f) < 7 || f[0] != "H" {
+		return nil
+	}
+	h := &c18Hist{temp: c18ParseF(f[1]), p: c18ParseF(f[3]), mp: c18ParseF(f[4])}
+	h.k, _ = strconv.Atoi(f[2])
+	h.seed, _ = strconv.Atoi(f[5])
+	nc, _ := strconv.Atoi(f[6])
+	pos := 7
+	for j := 0; j < nc && pos < len(f); j++ {
+		n, err := strconv.Atoi(f[pos])
+		if err != nil {
+			return nil
+		}
+		pos++
+		v := make([]float32, 0, n)
+		for i := 0; i < n && pos < len(f); i++ {
+			v = append(v, c18ParseF(f[pos]))
+			pos++
+		}
+		h.calls = append(h.calls, v)
+	}
+	for _, x := range []float32{h.temp, h.p, h.mp} {
+		if x != x || math.IsInf(float64(x), 0) {
+			h.weird = true
+		}
+	}
+	return h
+}
+
+func c18GenHist(r *zzverif.Rng, out *zzverif.Out) *c18Hist {
+	c := c18GenCase(r, out)
+	h := &c18Hist{temp: c.temp, p: c.p, mp: c.mp, k: c.k, seed: c.seed, weird: c.weird, calls: [][]float32{c.logits}}
+	nc := 1
+	switch r.Intn(8) {
+	case 0, 1:
+		nc = 1
+	case 2, 3, 4:
+		nc = 2
+	case 5, 6:
+		nc = r.Range(3, 4)
+	default:
+		nc = r.Range(5, 8)
+	}
+	if len(c.logits) > 600 {
+		nc = min(nc, 2)
+	}
+	for j := 1; j < nc; j++ {
+		prev := h.calls[j-1]
+		var v []float32
+		switch r.Intn(8) {
+		case 0: // a different vocabulary size
+			out.Count("hist_next_other_length")
+			v = c18GenLogits(r, out)
+			if len(v) > 600 {
+				v = v[:600]
+			}
+		case 1, 2: // a fresh vector of the same length from another class
+			out.Count("hist_next_fresh_same_length")
+			v = c18GenLogits(r, out)
+			for len(v) < len(prev) {
+				v = append(v, v...)
+			}
+			v = v[:len(prev)]
+		case 3: // the same vector again
+			out.Count("hist_next_identical")
+			v = append([]float32(nil), prev...)
+		case 4: // a different mask over the same values (what a grammar does between tokens)
+			out.Count("hist_next_remasked")
+			v = append([]float32(nil), prev...)
+			for i := range v {
+				if v[i] == c18NegInf {
+					v[i] = c18RandFloat(r, -20, 20)
+				}
+			}
+			den := r.Range(2, 6)
+			for i := range v {
+				if r.Chance(den-1, den) {
+					v[i] = c18NegInf
+				}
+			}
+		case 5: // a permutation of the previous vector
+			out.Count("hist_next_permuted")
+			v = append([]float32(nil), prev...)
+			for i := len(v) - 1; i > 0; i-- {
+				j := r.Intn(i + 1)
+				v[i], v[j] = v[j], v[i]
+			}
+		default: // the previous vector with some entries redrawn
+			out.Count("hist_next_perturbed")
+			v = append([]float32(nil), prev...)
+			for j := 0; j < 1+len(v)/4; j++ {
+				v[r.Intn(len(v))] = c18RandFloat(r, -20, 20)
+			}
+		}
+		h.calls = append(h.calls, v)
+	}
+	return h
+}
+
+// c18RunHist: one real Sampler, all calls on it; the generator state is threaded by the model's rule.
+func c18RunHist(out *zzverif.Out, h *c18Hist, fix bool) {
+	line := h.line()
+	out.Count("cases")
+	out.Count(fmt.Sprintf("hist_len_%d", min(len(h.calls), 5)))
+	realS := NewSampler(h.temp, h.k, h.p, h.mp, h.seed, nil)
+	out.Case(fmt.Sprintf("newsampler %s %d %s %s", c18Bits(h.temp), h.k, c18Bits(h.p), c18Bits(h.mp)),
+		fmt.Sprintf("%s %d %s %s", c18Bits(realS.temperature), realS.topK, c18Bits(realS.topP), c18Bits(realS.minP)))
+	if realS.rng == nil {
+		out.L2("seed-ignored", line, "NewSampler returned a sampler without a seeded generator although seed != -1")
 		return
 	}
-	seqs := make([][]float32, 4)
-	for i := range seqs {
-		v := append([]float32(nil), c.logits...)
-		for j := 0; j < 1+len(v)/8; j++ {
-			v[r.Intn(len(v))] = c18RandFloat(r, -20, 20)
-		}
-		seqs[i] = v
+	// the seeded stream, read from a second, identically constructed sampler
+	s2 := NewSampler(h.temp, h.k, h.p, h.mp, h.seed, nil)
+	stream := make([]float32, len(h.calls)+2)
+	nums := make([]string, len(stream))
+	for i := range stream {
+		stream[i] = s2.rng.Float32()
+		nums[i] = strconv.Itoa(int(stream[i] * (1 << 24)))
 	}
-	run := func() string {
-		s := NewSampler(c.temp, c.k, c.p, c.mp, c.seed, nil)
-		var b strings.Builder
-		for _, v := range seqs {
-			res := c18CallSample(&s, append([]float32(nil), v...))
-			b.WriteString(res.head + ";")
+	out.Case(fmt.Sprintf("rng %d %d", h.seed, len(stream)), strings.Join(nums, ","))
+
+	draws := 0
+	anyPre := false
+	for j, logits := range h.calls {
+		c := &c18Case{temp: h.temp, p: h.p, mp: h.mp, k: h.k, seed: h.seed, logits: logits, weird: h.weird}
+		consumed, pre := c18RunCall(out, c, fix, &realS, stream[draws], line, j, j == 0 || j == len(h.calls)-1)
+		if consumed {
+			draws++
 		}
-		return b.String()
+		anyPre = anyPre || pre
+	}
+	out.Add("rng_draws", draws)
+
+	// the whole history on fresh samplers: (a) reproducible under the seed, (b) through the model's
+	// `sampleHist` (generator state threaded inside the oracle) when no call needs Go's tie order
+	run := func() []string {
+		s := NewSampler(h.temp, h.k, h.p, h.mp, h.seed, nil)
+		heads := make([]string, len(h.calls))
+		for j, v := range h.calls {
+			heads[j] = c18CallSample(&s, append([]float32(nil), v...)).head
+		}
+		return heads
 	}
 	a, b := run(), run()
-	out.Count("repro_sequences")
-	if a != b {
-		out.L2("not-reproducible", c.line(), fmt.Sprintf("same seed, same inputs: %s vs %s", a, b))
+	out.Count("repro_histories")
+	if strings.Join(a, ";") != strings.Join(b, ";") {
+		out.L2("not-reproducible", line, fmt.Sprintf("same seed, same inputs: %s vs %s", strings.Join(a, ";"), strings.Join(b, ";")))
 	}
-	// and a different seed is actually used: the stream differs (checked through the rng op in L1)
+	if !anyPre && !h.weird {
+		fixFlag := 0
+		if fix {
+			fixFlag = 1
+		}
+		var op strings.Builder
+		fmt.Fprintf(&op, "hist %d %s %d %s %s %d %d", fixFlag, c18Bits(h.temp), h.k, c18Bits(h.p), c18Bits(h.mp), h.seed, len(h.calls))
+		tbl := map[string]string{}
+		var order []string
+		for _, v := range h.calls {
+			op.WriteByte(' ')
+			op.WriteString(c18FList(v))
+			c := &c18Case{temp: h.temp, p: h.p, mp: h.mp, k: h.k, logits: v}
+			for _, kv := range c18CallExpPairs(c, fix) {
+				if _, ok := tbl[kv[0]]; !ok {
+					tbl[kv[0]] = kv[1]
+					order = append(order, kv[0])
+				}
+			}
+		}
+		fmt.Fprintf(&op, " %d", len(order))
+		for _, k := range order {
+			op.WriteString(" " + k + " " + tbl[k])
+		}
+		out.Count("hist_ops")
+		out.Case(op.String(), strings.Join(a, ";"))
+	} else {
+		out.Count("hist_ops_skipped_tie_order_or_weird")
+	}
+}
+
+// c18CallExpPairs replicates the stages up to softmax with the real transforms and returns the
+// (argument, exp value) pairs of that call.
+func c18CallExpPairs(c *c18Case, fix bool) [][2]string {
+	s := c18Spec(c)
+	if len(c.logits) == 0 || s.temperature == 0 {
+		return nil
+	}
+	W := topK(c18Toks(c.logits), s.topK)
+	if fix && !c18Shift(W) {
+		return nil
+	}
+	temperature(W, s.temperature)
+	f := strings.Fields(c18ExpTable(c18Vals(W)))
+	var out [][2]string
+	for i := 1; i+1 < len(f); i += 2 {
+		out = append(out, [2]string{f[i], f[i+1]})
+	}
+	return out
+}
+
+// directed search for the temperature-0 clause: near-tied top logits (adjacent floats), many seeds;
+// whatever the seed, the result must be an arg-max.
+func c18GreedyNearTies(out *zzverif.Out, r *zzverif.Rng, fix bool) {
+	for i := 0; i < 96; i++ {
+		n := r.Range(2, 12)
+		base := math.Float32bits(zzverif.Pick(r, []float32{1, 1, 0.5, 2, 1e-3, 17.25}))
+		v := make([]float32, n)
+		for j := range v {
+			v[j] = math.Float32frombits(base - uint32(r.Range(1, 2)))
+		}
+		v[r.Intn(n)] = math.Float32frombits(base) // the unique maximum, one or two ulps above the rest
+		h := &c18Hist{temp: 0, k: zzverif.Pick(r, []int{0, 40, n, -1}), p: zzverif.Pick(r, []float32{1, 0.95, 0.9}),
+			mp: zzverif.Pick(r, []float32{0, 0.05}), seed: r.Range(1, 1<<30), calls: [][]float32{v}}
+		if r.Chance(1, 3) {
+			h.temp = float32(math.Copysign(0, -1)) // -0
+		}
+		if r.Bool() {
+			h.calls = append(h.calls, append([]float32(nil), v...))
+		}
+		out.Count("directed_greedy_near_ties")
+		c18RunHist(out, h, fix)
+	}
 }
 
 func TestVerifC18(t *testing.T) {
@@ -997,35 +1229,32 @@ func TestVerifC18(t *testing.T) {
 		if err != nil {
 			t.Fatal(err)
 		}
-		c := c18ParseCase(strings.TrimSpace(string(b)))
-		if c == nil {
+		h := c18ParseHist(strings.TrimSpace(string(b)))
+		if h == nil {
 			t.Fatalf("bad replay line")
 		}
-		c18RunCase(out, c, fix)
-		c18Repro(out, zzverif.NewRng(1), c)
+		c18RunHist(out, h, fix)
 		return
 	}
 	root := zzverif.NewRng(zzverif.Seed())
-	n := zzverif.EnvInt("VERIF_N", 2000)
+	n := zzverif.EnvInt("VERIF_N", 1000)
 	// corpus first
 	if dir := os.Getenv("VERIF_CORPUS"); dir != "" {
 		if b, err := os.ReadFile(dir + "/cases.txt"); err == nil {
 			for _, l := range strings.Split(string(b), "\n") {
-				if c := c18ParseCase(strings.TrimSpace(l)); c != nil {
+				if h := c18ParseHist(strings.TrimSpace(l)); h != nil {
 					out.Count("corpus_cases")
-					c18RunCase(out, c, fix)
+					c18RunHist(out, h, fix)
 				}
 			}
 		}
 	}
+	c18GreedyNearTies(out, root.Fork(), fix)
 	for i := 0; i < n; i++ {
 		r := root.Fork()
-		c := c18GenCase(r, out)
-		c18RunCase(out, c, fix)
-		if i%4 == 0 {
-			c18Repro(out, r, c)
-		}
+		c18RunHist(out, c18GenHist(r, out), fix)
 	}
-	// empty input
-	c18RunCase(out, &c18Case{temp: 0.8, k: 40, p: 0.9, mp: 0.05, seed: 7}, fix)
+	// empty input, alone and inside a history
+	c18RunHist(out, &c18Hist{temp: 0.8, k: 40, p: 0.9, mp: 0.05, seed: 7, calls: [][]float32{{}}}, fix)
+	c18RunHist(out, &c18Hist{temp: 0.8, k: 0, p: 0.9, mp: 0.05, seed: 7, calls: [][]float32{{1, 2, 3}, {}, {3, 2, 1}}}, fix)
 }
